@@ -37,6 +37,7 @@ package conf
 //@   pure
 //@   ensures[C03] never_fails: result1 == nil
 //@   ensures[C03] strings_unchanged: istype(data, string) ==> result0 == data
+//@   ensures[C03] others_rendered_with_percent_v: !istype(data, string) ==> result0 == box(sprintv(data))
 
 //@ funcvar DefaultCoercers.Int(data)
 //@   implements functype CoercerFunc
